@@ -267,7 +267,15 @@ func (r *SortReg) rangeFact(term string, t types.Type, depth int) string {
 		return "(and " + strings.Join(parts, " ") + ")"
 	case *types.Slice:
 		s := r.sortOf(t)
-		return fmt.Sprintf("(and (>= (len_%s %s) 0) (<= (len_%s %s) 9223372036854775807))", s, term, s, term)
+		base := fmt.Sprintf("(and (>= (len_%s %s) 0) (<= (len_%s %s) 9223372036854775807))", s, term, s, term)
+		if eb, ok := u.Elem().Underlying().(*types.Basic); ok {
+			if lo, hi, ok := intRange(eb); ok && depth == 0 {
+				// element values of an integer slice are in the element type's range
+				return fmt.Sprintf("(and %s (forall ((k_rf Int)) (! (and (<= %s (select (arr_%s %s) k_rf)) (<= (select (arr_%s %s) k_rf) %s)) :pattern ((select (arr_%s %s) k_rf)))))",
+					base, smtInt(lo), s, term, s, term, smtInt(hi), s, term)
+			}
+		}
+		return base
 	case *types.Map:
 		s := r.sortOf(t)
 		return fmt.Sprintf("(and (>= (card_%s %s) 0) (<= (card_%s %s) 9223372036854775807))", s, term, s, term)
